@@ -17,7 +17,7 @@ from hypothesis import strategies as st
 from vf.core import Sub
 
 RULE = ("command sequences over {one-mode gate, ordered two-mode gate, homodyne, MeasureFock on 1..n modes, "
-        "gate parameterised by another mode's measured value, preparation}: exhaustively up to the stated "
+        "one- or two-mode gate parameterised by the measured value of another mode or of its own target, preparation}: exhaustively up to the stated "
         "length over 3 modes, Hypothesis-generated up to 14 commands over 2..6 modes; a case is non-trivial "
         "when it has >=1 conflicting pair and >=1 independent pair of commands (a reordering is possible and "
         "constrained); distinct = distinct JSON of the sequence")
@@ -26,7 +26,7 @@ ASSUMPTIONS = [
     "measured value is a parameter of the other (read from the command objects' reg / op.measurement_deps)",
     "networkx topological sorting enumerations (all_topological_sorts) are trusted to enumerate linearisations",
 ]
-REQUIRED_LABELS = {"all": ["measured_param_dependency", "marked_between_unmarked", "measurefock_multi",
+REQUIRED_LABELS = {"all": ["measured_param_dependency", "feedback_onto_measured_mode", "marked_between_unmarked", "measurefock_multi",
                            "gbs_accepted", "gbs_rejected", "all_toposorts_checked"]}
 
 _STATE = {}
@@ -61,6 +61,8 @@ def alphabet(nm):
         A.append(["mf", list(range(nm)), None])
     for i, j in itertools.permutations(range(nm), 2):
         A.append(["ff", [j], i])  # gate on j using the measured value of i
+    for i in range(nm):
+        A.append(["ff", [i], i])  # feedback onto the measured mode itself
     for i in range(nm):
         A.append(["pr", [i], None])
     return A
@@ -134,6 +136,8 @@ def check_seq(ctx, case):
     labels = []
     if any(it[0] in ("ff", "ff2") for it in items):
         labels.append("measured_param_dependency")
+    if any(it[0] in ("ff", "ff2") and it[2] in it[1] for it in items):
+        labels.append("feedback_onto_measured_mode")
     if any(it[0] == "mf" and len(it[1]) > 1 for it in items):
         labels.append("measurefock_multi")
     for i in range(1, n - 1):
@@ -318,14 +322,12 @@ def random_case(draw):
             k = draw(st.integers(1, nm))
             seq.append([kind, list(draw(st.permutations(range(nm)))[:k]), None])
         elif kind == "ff":
-            p = draw(st.permutations(range(nm)))
-            seq.append([kind, [p[0]], p[1]])
+            # the measured mode may be the target itself (feedback onto the measured mode)
+            seq.append([kind, [draw(st.integers(0, nm - 1))], draw(st.integers(0, nm - 1))])
         else:
+            # two-mode gate parameterised by the measured value of a third mode or of one of its own targets
             p = draw(st.permutations(range(nm)))
-            if nm >= 3:
-                seq.append([kind, [p[0], p[1]], p[2]])
-            else:
-                seq.append(["ff", [p[0]], p[1]])
+            seq.append([kind, [p[0], p[1]], draw(st.integers(0, nm - 1))])
     order = draw(st.lists(st.integers(0, 7), max_size=6))
     return {"nm": nm, "seq": seq, "grid_order": order}
 
